@@ -126,6 +126,38 @@ example : GenK.bitsDecode [] 0 = .error (.lib "PyAsn1Error") := by rfl
 example : GenK.bitsDecode [0x07] 1 = .error (.lib "PyAsn1Error") := by rfl
 example : GenK.bitsDecode [0x00] 1 = .ok (0, 0) := by rfl
 
+/-- **BER BOOLEAN at the source level: every contents string, any non-zero value is TRUE** - the translated INTEGER decoder
+    followed by the translated `BooleanPayloadDecoder._createComponent` (`value and 1 or 0`) answers 1 exactly when the
+    contents, read as a two's complement integer, are not zero: all 255 non-zero single octets, longer contents, and the
+    empty contents (FALSE) - the model's lenient BOOLEAN branch -/
+theorem source_ber_boolean_nonzero_is_true (c : Bytes) :
+    (GenK.intDecode (Kernels.bytesInts c) >>= GenK.berBoolDec) = .ok (if intFromBytes c != 0 then 1 else 0) :=
+  Kernels.berBoolDec_kernel c
+
+/-- every single non-zero octet is TRUE -/
+theorem source_ber_boolean_octet (b : UInt8) :
+    (GenK.intDecode (Kernels.bytesInts [b]) >>= GenK.berBoolDec) = .ok (if b = 0 then 0 else 1) := by
+  rw [Kernels.berBoolDec_kernel]
+  have hb := UInt8.toNat_lt b
+  have h0 : b = 0 ↔ b.toNat = 0 := by
+    constructor
+    · intro h; rw [h]; rfl
+    · intro h; exact UInt8.toNat_inj.mp (by rw [h]; rfl)
+  by_cases hz : b.toNat = 0
+  · have : b = 0 := h0.mpr hz
+    subst this
+    rfl
+  · have hne : ¬ b = 0 := fun h => hz (h0.mp h)
+    simp only [hne, if_false]
+    have : intFromBytes [b] ≠ 0 := by
+      simp only [intFromBytes, intFromBytesAux]
+      split <;> omega
+    simp [this]
+
+example : (GenK.intDecode [0x80] >>= GenK.berBoolDec) = .ok 1 := by rfl
+example : (GenK.intDecode [] >>= GenK.berBoolDec) = .ok 0 := by rfl
+example : (GenK.intDecode [0, 0, 1] >>= GenK.berBoolDec) = .ok 1 := by rfl
+
 /-- over-long form: `82 00 03` is read as 3; the indefinite marker as -1 by BER and refused by a codec without
     indefinite lengths (DER) -/
 example : GenK.decodeLength true 0x82 [0, 3] = .ok 3 := by rfl
